@@ -44,7 +44,7 @@ def k1_verdict_corpus(ctx):
         sh = smgen.Shape(async_=rnd.random() < 0.3, dynamic=rnd.random() < 0.6, concrete=rnd.random() < 0.4,
                          depth=rnd.randint(0, 3), nleaves=rnd.randint(1, 5), nevents=rnd.randint(0, 3),
                          data=rnd.choice(['none', 'some', 'all']), hooks=rnd.randint(0, 3),
-                         payload=rnd.choice(['none', 'mixed', 'all']), super_data=rnd.random() < 0.2, cross_kind=rnd.random() < 0.3)
+                         payload=rnd.choice(['none', 'mixed', 'all']), super_data=rnd.random() < 0.2, cross_kind=rnd.random() < 0.3, hook_event=rnd.random() < 0.3)
         cases.append(('wf', smgen.gen_wellformed(rnd, sh)))
     base = [d for (_, d) in cases]
     nm = 40 if ctx.tier == 'quick' else 400
@@ -331,14 +331,16 @@ def replay_k2(prop, det):
         print('macro rejects the definition:', skel.get('err'))
         return 1
     d = to_tuples(det['defn'])
-    k2.write_crate(work, [(0, k2.rust_module(0, d, skel))])
+    # the machine's position in the corpus decides the form of its async hooks (k2.rust_module): keep its parity
+    par = int(det.get('machine', 0)) % 2
+    k2.write_crate(work, [(par, k2.rust_module(par, d, skel))])
     shutil.copy(os.path.join(stages.REPO, 'Cargo.lock'), os.path.join(work, 'Cargo.lock'))
     rc, so, se = stages.sh(['cargo', 'build', '--offline'], cwd=work,
                            env=dict(stages.ENV, CARGO_TARGET_DIR=os.path.join(stages.CACHE, 'target-k2')))
     if rc != 0:
         print(se[-2000:])
         return 1
-    inp = 'M 0\nS\n' + '\n'.join(det['ops']) + '\n'
+    inp = 'M %d\nS\n' % par + '\n'.join(det['ops']) + '\n'
     p = subprocess.run([os.path.join(stages.CACHE, 'target-k2', 'debug', 'sm-k2')], input=inp, capture_output=True, text=True)
     lines = [l for l in p.stdout.splitlines() if not l.startswith('#')]
     bad = 0
@@ -350,6 +352,8 @@ def replay_k2(prop, det):
         if m != r:
             print('     required:', m)
             print('     observed:', r)
+    print('replay: %s' % ('the implementation still differs from the model on %d line(s)' % bad if bad else
+                          'the implementation agrees with the model on every line (not reproduced on this tree)'))
     return 1 if bad else 0
 
 
